@@ -187,16 +187,18 @@ pub fn spec(property: &str, tier: &str) -> Option<CheckSpec> {
 				if quick { 16 } else { 64 },
 				"case = one generated chain; run = one seeded interleaving of submissions (valid, dependent on pooled outputs, conflicting with pooled inputs, duplicates, aggregates of pooled transactions, under-fee, immature / just-mature coinbase spends, future / next-block lock heights, non-existent inputs; stem and fluff), blocks mined from prepare_mineable_transactions, blocks with arbitrary pool subsets and conflicting spends, empty blocks, reorgs of depth 1-3 by a competing branch with its own spends, and capacity shrinks forcing eviction; after EVERY operation: no two pooled transactions share an input, every entry validates standalone, pays shifted_fee >= weight*accept_fee_base and is within the weight limit, aggregate(txpool) and aggregate(txpool+stempool) validate, pass Chain::validate_tx and balance against the head's block sums, the mineable set aggregates and applies; blocks built from the mineable set must assemble within the weight limit and be accepted by the chain; clear-cut submissions must be accepted/refused as the rule model says (C13 pool clause: maturity and lock height at -1/0)",
 				vec!["a block connection is atomic for the oracle: process_block including the real ChainToPoolAndNetAdapter::block_accepted it calls", "reorg-cache ageing is driven by an explicit cutoff (nothing ages out within a run)"],
-				vec!["reorg_reconciled", "dependent_chain_submitted", "conflicting_submitted", "mined_from_pool_nonempty", "block_with_conflicting_spend", "stem_accepted", "underfee_submitted_at_capacity"],
+				vec!["reorg_reconciled", "dependent_chain_submitted", "conflicting_submitted", "mined_from_pool_nonempty", "block_with_conflicting_spend", "stem_accepted", "underfee_submitted_at_capacity", "compact_block_hydrated_from_pool", "compact_block_fell_back_to_full_block", "block_delivered_header_first"],
 			);
 			sp.real_components = vec![
 				"grin_pool::TransactionPool / Pool (add_to_pool, reconcile, reconcile_block, reorg cache, eviction, bucket_transactions, prepare_mineable_transactions)".into(),
 				"grin_chain::Chain (validate_tx, verify_coinbase_maturity, verify_tx_lock_height, process_block) on tmpfs".into(),
 				"grin_core transaction aggregation/validation, real proofs, signatures and PoW".into(),
 				"grin_servers PoolToChainAdapter and ChainToPoolAndNetAdapter (block_accepted: reconcile_block, reorg cache, broadcast), wired as Server::new wires them".into(),
+				"grin_servers NetToChainAdapter::block_received / header_received / compact_block_received (hydration from the pool, fallback to the full block): three of four mined blocks reach the node through them".into(),
 			];
 			sp.stub_components = vec![
-				"NetToChainAdapter::transaction_received (the harness calls add_to_pool with the head header as it does)".into(),
+				"NetToChainAdapter::transaction_received (the harness calls add_to_pool with the head header as it does, to see the error class)".into(),
+				"the peer behind the adapter's requests (request_block after a failed hydration is answered by the harness)".into(),
 				"wallet, miner, p2p connections (Peers without peers), Dandelion monitor (relay failures and embargo expiry are simulator decisions)".into(),
 			];
 			Some(sp)
